@@ -10,6 +10,8 @@ pub type Task = Box<dyn FnOnce() -> Outcome + Send>;
 /// index is congruent to the shard index are run.
 pub static SHARD: Mutex<Option<(usize, usize)>> = Mutex::new(None);
 static CALLS: Mutex<usize> = Mutex::new(0);
+/// the property being checked (for findings raised by the pool itself)
+pub static PROPERTY: Mutex<String> = Mutex::new(String::new());
 
 pub fn is_primary() -> bool {
     match *SHARD.lock().unwrap() {
@@ -38,7 +40,26 @@ pub fn run_all(tasks: Vec<Task>, threads: usize) -> Outcome {
                 let t = q.lock().unwrap().pop_front();
                 match t {
                     Some(t) => {
-                        let o = t();
+                        // Panics raised in harness code never get here (the panic hook turns them into a
+                        // machinery exit).  What can unwind out of a task is a panic raised INSIDE the library
+                        // by a call the task made without expecting failure: that is a finding about the
+                        // library, not a crash of the engine.
+                        let o = match std::panic::catch_unwind(std::panic::AssertUnwindSafe(t)) {
+                            Ok(o) => o,
+                            Err(p) => {
+                                let mut o = Outcome::new();
+                                o.violations.push(crate::report::Violation {
+                                    property: PROPERTY.lock().unwrap().clone(),
+                                    system: "uncaught-library-panic".into(),
+                                    config: String::new(),
+                                    op_class: "library call".into(),
+                                    symptom: "panic".into(),
+                                    detail: format!("a library call made while setting up or sampling (no failure expected there) panicked: {}", crate::util::panic_msg(&p)),
+                                    replay: serde_json::json!({"kind": "none", "note": "re-run the check"}),
+                                });
+                                o
+                            }
+                        };
                         total.lock().unwrap().merge(o);
                     }
                     None => break,
